@@ -20,6 +20,12 @@
 //!   deliver <id>                  the command sent by write task <id> is handled       -> ok | illegal-choice | no-note
 //!   setrange <r|@k|@k+|@k-> | cleanup | payment                                        -> ok
 //!   crash [<id>:<n> ...]          node stops; in-flight write <id> has written n bytes; store reopened on the same dir
+//!   start <netid>                 node stops if running; `check_and_wipe_storage_dir_if_necessary(root, storage, "<netid>")`
+//!                                 (what `build_node` runs at every start), then the store is opened   -> started v=<version file>
+//!   start <netid> interrupt [<b>] the same start in a child process with RLIMIT_FSIZE = b (default 0): the kernel kills it
+//!                                 at the first write that would take a regular file beyond b bytes; the node stays down
+//!                                                                                       -> killed v=.. | exited v=..
+//!   vfile                         content of <root>/network_key_version                -> absent | empty | <text>
 //!   get <k> | contains <k> | addrs | ls | dist | far | cache | pending | metrics <k>   observations
 //! Value #v: `v % 3 = 0` chunk header, `1` another valid record header, `2` no valid header; bytes derived from v.
 use ant_evm::U256;
@@ -219,6 +225,18 @@ struct World {
     /// every put so far happened with no write/notification in flight, and no crash
     disciplined: bool,
     crashed: bool,
+    /// false after an interrupted start: the node is down until a `start` completes
+    up: bool,
+    /// network id text of the last start that completed (None: no start-up check has run on this root yet)
+    net: Option<String>,
+    /// every start since the node was last running used the id in `net`
+    same_id_streak: bool,
+    /// what must hold after the next completed same-id start, from what the harness knew when the node stopped
+    start_expect: Vec<(u64, Option<u64>)>,
+    /// file deletions that were still pending when the node stopped (crash / start), summed over the history
+    lost_deletes: usize,
+    /// `payment` operations since `init`
+    received: u64,
     payments: u64,
     hist_file: Option<u64>,
     range: Option<BigUint>,
@@ -310,6 +328,12 @@ impl World {
             clean: true,
             disciplined: true,
             crashed: false,
+            up: true,
+            net: None,
+            same_id_streak: false,
+            start_expect: vec![],
+            lost_deletes: 0,
+            received: 0,
             payments: 0,
             hist_file: None,
             range: None,
@@ -368,11 +392,9 @@ impl World {
             self.network = Some(network);
             self.events = Some(events);
             self.base_rt = Some(base);
-            let n = self.payments;
-            let mut tasks = VecDeque::new();
-            tasks.push_back((self.next_id, TKind::Flush { n }));
+            // `with_config` writes the metrics file in place: nothing is pending; the call takes one id
+            self.hist_file = Some(self.payments);
             self.next_id += 1;
-            self.lanes.push(Lane { rt: new_lane_rt(), tasks, frozen: true });
             return;
         }
         let rt = new_lane_rt();
@@ -386,7 +408,13 @@ impl World {
         self.store_ptr = &mut *store as *mut NodeRecordStore;
         self.bare = Some(store);
         let n = self.payments;
-        self.push_lane(rt, vec![TKind::Flush { n }]);
+        if rt.metrics().num_alive_tasks() == 0 {
+            // the metrics file is written in place by `with_config`: nothing is pending; the call takes one id
+            self.hist_file = Some(n);
+            self.next_id += 1;
+        } else {
+            self.push_lane(rt, vec![TKind::Flush { n }]);
+        }
     }
 
     /// the node stops
@@ -677,8 +705,10 @@ impl World {
         if far != want_far {
             self.fail("views-agree", format!("farthest_record is {far:?}, the farthest listed key is {want_far:?}"));
         }
-        if self.disciplined && !self.crashed && listed.len() > self.max.max(1) {
-            self.fail("capacity-bound", format!("{} records held with max_records = {} although every put was acknowledged before the next", listed.len(), self.max));
+        // with every put acknowledged before the next: held + in flight <= capacity + file deletions lost in stops
+        let inflight = self.pending_tasks().iter().filter(|(_, t)| matches!(t, TKind::Write { .. })).count() + self.notes.len() + self.awaiting.len();
+        if self.disciplined && listed.len() + inflight > self.max.max(1) + self.lost_deletes {
+            self.fail("capacity-bound", format!("{} records held and {inflight} in flight with max_records = {} although every put was acknowledged before the next and only {} file deletions were lost in stops", listed.len(), self.max, self.lost_deletes));
         }
     }
 
@@ -722,7 +752,17 @@ impl World {
             self.pump();
         }
         let knows = |w: &World, k: &str| -> Option<u64> { k.parse::<u64>().ok().filter(|k| w.keys.contains_key(k)) };
+        if !self.up && !matches!(ws.first().copied(), Some("start" | "vfile" | "ls" | "key" | "len")) {
+            return "down".into();
+        }
         match ws.as_slice() {
+            ["start", id] => self.start(id, None),
+            ["start", id, "interrupt"] => self.start(id, Some(0)),
+            ["start", id, "interrupt", b] => match b.parse::<u64>() {
+                Ok(b) => self.start(id, Some(b)),
+                Err(_) => "bad-op".into(),
+            },
+            ["vfile"] => self.vfile_str(),
             ["key", k, d] | ["key", k, d, _, _] => {
                 let Ok(k) = k.parse::<u64>() else { return "bad-op".into() };
                 if ws.len() == 5 && (ws[3] != hex::encode(key_bytes(k)) || ws[4] != hex::encode(self.peer.to_bytes())) {
@@ -1000,8 +1040,13 @@ impl World {
                     rs::payment_received(self.st_mut());
                 }
                 self.payments += 1;
+                self.received += 1;
                 let n = self.payments;
-                if !self.push_lane(rt_lane, vec![TKind::Flush { n }]) {
+                if rt_lane.metrics().num_alive_tasks() == 0 {
+                    // the metrics file is written in place: nothing is pending; the call takes one id
+                    self.hist_file = Some(n);
+                    self.next_id += 1;
+                } else if !self.push_lane(rt_lane, vec![TKind::Flush { n }]) {
                     return "ok lane-mismatch".into();
                 }
                 "ok".into()
@@ -1216,6 +1261,7 @@ impl World {
                 _ => {}
             }
         }
+        self.lost_deletes += self.pending_tasks().iter().filter(|(_, t)| matches!(t, TKind::Delete { .. })).count();
         // the in-flight writes happen, then lose their tail
         let mut fulls: Vec<(u64, Vec<u8>)> = vec![];
         for (id, k, _v, n) in &torn {
@@ -1244,6 +1290,11 @@ impl World {
             self.fail("payments-survive-restart", format!("persisted payment count was {survived:?}, reopened store reports {p}"));
         }
         self.hist_file = survived;
+        // C10: payments received survive restarts — whatever was pending, in whatever order tasks completed
+        if self.payments != self.received {
+            let (p, r) = (self.payments, self.received);
+            self.fail("payments-survive-restart", format!("{r} payments were received since the node's first start, the restarted store reports {p}"));
+        }
         // C02 oracle on the reopened store
         let listed = self.listed();
         for k in &ks {
@@ -1293,6 +1344,174 @@ impl World {
             }
         }
         "ok".into()
+    }
+
+    fn vfile_str(&self) -> String {
+        match std::fs::read(self.root.path().join("network_key_version")) {
+            Err(_) => "absent".into(),
+            Ok(b) if b.is_empty() => "empty".into(),
+            Ok(b) => String::from_utf8_lossy(&b).chars().map(|c| if c.is_ascii_graphic() { c } else { '?' }).collect(),
+        }
+    }
+
+    /// version file and record files, byte for byte
+    fn dir_snapshot(&self) -> (Option<Vec<u8>>, BTreeMap<String, Vec<u8>>) {
+        let v = std::fs::read(self.root.path().join("network_key_version")).ok();
+        let mut files = BTreeMap::new();
+        if let Ok(rd) = std::fs::read_dir(&self.storage) {
+            for e in rd.flatten() {
+                files.insert(e.file_name().to_string_lossy().to_string(), std::fs::read(e.path()).unwrap_or_default());
+            }
+        }
+        (v, files)
+    }
+
+    /// `start <netid> [interrupt b]`: the node stops (if it is running); then the start-up step that
+    /// `NetworkBuilder::build_node` runs before it opens the store — the REAL `check_and_wipe_storage_dir_if_necessary` —
+    /// runs for this network id: in this process, followed by `create_dir_all(storage)` and `with_config` as in
+    /// `build_node`; or, interrupted, in a child process (this binary re-executed with `--start-child`) whose
+    /// RLIMIT_FSIZE is b bytes, so the kernel kills it (SIGXFSZ) at the first write that would take a regular file beyond
+    /// b bytes — the version-file write: 0 = right after the truncate, 0 < b < len = a torn prefix.
+    fn start(&mut self, id: &str, interrupt: Option<u64>) -> String {
+        if self.use_cmd {
+            return "bad-op".into();
+        }
+        let Ok(idn) = id.parse::<u64>() else { return "bad-op".into() };
+        let idtext = idn.to_string();
+        if self.up {
+            // the node stops: nothing pending survives. What must be there again after a restart with the same
+            // identity, from what the harness itself knows about completed work (as for `crash` with no torn write)
+            let ks: Vec<u64> = self.keys.keys().copied().collect();
+            let mut expect: Vec<(u64, Option<u64>)> = vec![];
+            for k in &ks {
+                if self.pending_for(*k) || self.taint_disk(*k) {
+                    continue;
+                }
+                match self.last_event.get(k) {
+                    Some(Ev::Put(v, _)) if v % 3 != 2 => expect.push((*k, Some(*v))),
+                    Some(Ev::Removed) => expect.push((*k, None)),
+                    _ => {}
+                }
+            }
+            self.start_expect = expect;
+            self.lost_deletes += self.pending_tasks().iter().filter(|(_, t)| matches!(t, TKind::Delete { .. })).count();
+            self.lanes.clear();
+            self.notes.clear();
+            self.awaiting.clear();
+            self.blocked_senders = 0;
+            self.close();
+            while self.cmd_rx.try_recv().is_ok() {}
+            self.crashed = true;
+            self.clean = false;
+            self.range = None;
+            self.up = false;
+            self.same_id_streak = true;
+        }
+        let own_id = self.net.as_deref() == Some(idtext.as_str());
+        if !own_id {
+            self.same_id_streak = false;
+        }
+        if let Some(limit) = interrupt {
+            let before = self.dir_snapshot();
+            let exe = match std::env::current_exe() {
+                Ok(e) => e,
+                Err(e) => return format!("err:current_exe:{e}"),
+            };
+            let mut cmd = std::process::Command::new(exe);
+            cmd.arg("--start-child").arg(self.root.path()).arg(&idtext);
+            cmd.stdin(std::process::Stdio::null()).stdout(std::process::Stdio::null()).stderr(std::process::Stdio::null());
+            // SAFETY: only async-signal-safe calls between fork and exec
+            unsafe {
+                use std::os::unix::process::CommandExt;
+                cmd.pre_exec(move || {
+                    let no_core = libc::rlimit { rlim_cur: 0, rlim_max: 0 };
+                    libc::setrlimit(libc::RLIMIT_CORE, &no_core);
+                    let lim = libc::rlimit { rlim_cur: limit as libc::rlim_t, rlim_max: limit as libc::rlim_t };
+                    if libc::setrlimit(libc::RLIMIT_FSIZE, &lim) != 0 {
+                        return Err(std::io::Error::last_os_error());
+                    }
+                    Ok(())
+                });
+            }
+            let status = match cmd.status() {
+                Ok(s) => s,
+                Err(e) => return format!("err:spawn:{e}"),
+            };
+            use std::os::unix::process::ExitStatusExt;
+            let out = match (status.signal(), status.code()) {
+                (Some(sig), _) if sig == libc::SIGXFSZ => "killed".to_string(),
+                (Some(sig), _) => format!("signal-{sig}"),
+                (None, Some(0)) => "exited".to_string(),
+                (None, c) => format!("child-failed-{c:?}"),
+            };
+            // C02: a start with the node's own network id, interrupted anywhere, leaves the version file and every
+            // record file as they were
+            if own_id && self.same_id_streak {
+                let after = self.dir_snapshot();
+                if after != before {
+                    let show = |v: &Option<Vec<u8>>| v.as_ref().map(|b| String::from_utf8_lossy(b).to_string());
+                    self.fail("interrupted-start-untouched", format!("a start for the node's own network id {idtext} was interrupted ({out}): version file {:?} -> {:?}, record files {} -> {}", show(&before.0), show(&after.0), before.1.len(), after.1.len()));
+                }
+            }
+            return format!("{out} v={}", self.vfile_str());
+        }
+        // the completed start: what `build_node` does before and when it opens the store
+        if let Err(e) = dhook::check_and_wipe_storage_dir_if_necessary(self.root.path().to_path_buf(), self.storage.clone(), idtext.clone()) {
+            return format!("err:{e:?}");
+        }
+        if let Err(e) = std::fs::create_dir_all(&self.storage) {
+            return format!("err:mkdir:{e}");
+        }
+        self.open();
+        self.up = true;
+        if self.payments != self.received {
+            let (p, r) = (self.payments, self.received);
+            self.fail("payments-survive-restart", format!("{r} payments were received since the node's first start, the restarted store reports {p}"));
+        }
+        let ks: Vec<u64> = self.keys.keys().copied().collect();
+        let listed = self.listed();
+        for k in &ks {
+            let got = self.get_str(*k);
+            let sound = match got.strip_prefix("some ").and_then(|v| v.parse::<u64>().ok()) {
+                Some(v) => self.puts.get(k).map(|p| p.contains(&v)).unwrap_or(false),
+                None => got == "none",
+            };
+            if !sound {
+                self.fail("restart-sound", format!("after the start get {k} = {got}; values ever put for this key: {:?}", self.puts.get(k)));
+            }
+        }
+        // C02: restarted with the same identity — the same network id in every start since the node stopped
+        if own_id && self.same_id_streak {
+            let expect = std::mem::take(&mut self.start_expect);
+            for (k, e) in &expect {
+                let got = self.get_str(*k);
+                match e {
+                    Some(v) => {
+                        if got != format!("some {v}") || !listed.contains_key(k) {
+                            self.fail("restart-keeps-completed", format!("key {k}: write of value {v} had completed and was not overwritten or removed; after the node stopped and was started again with its own network id {idtext} (interrupted starts in between) get = {got}, listed = {}", listed.contains_key(k)));
+                        }
+                    }
+                    None => {
+                        if got != "none" || listed.contains_key(k) {
+                            self.fail("restart-absent", format!("key {k}: removed before the stop; after the restart get = {got}, listed = {}", listed.contains_key(k)));
+                        }
+                    }
+                }
+            }
+        }
+        self.start_expect.clear();
+        self.net = Some(idtext);
+        self.same_id_streak = false;
+        // what the reopened store holds is the baseline for the rest of the history
+        self.last_event.clear();
+        for k in &ks {
+            let ev = match (listed.get(k), self.get_str(*k).strip_prefix("some ").and_then(|v| v.parse::<u64>().ok())) {
+                (Some(rt), Some(v)) => Ev::Put(v, rt.clone()),
+                _ => Ev::Removed,
+            };
+            self.last_event.insert(*k, ev);
+        }
+        format!("started v={}", self.vfile_str())
     }
 
     /// disk-level taint: none at present (kept as a hook for future fault injection)
@@ -1554,6 +1773,27 @@ fn crash_line(rng: &mut Rng, w: &World) -> String {
     line
 }
 
+/// a stop followed by 0-3 interrupted starts and a completed one: mostly with the node's own network id (the restart
+/// with the same identity the property speaks about), sometimes with another id (which wipes); interruption limits 0
+/// (killed right after the truncate), 1-2 bytes (torn prefix; may read as another id) and more than the id is long
+fn start_lines(rng: &mut Rng, w: &World) -> Vec<String> {
+    const IDS: [u64; 6] = [1, 2, 7, 12, 123, 255];
+    let own: u64 = w.net.as_ref().and_then(|s| s.parse().ok()).unwrap_or(1);
+    let pick_id = |rng: &mut Rng| if rng.chance(3, 4) { own } else { *rng.pick(&IDS) };
+    let mut v = vec![];
+    for _ in 0..rng.below(4) {
+        let id = pick_id(rng);
+        v.push(match rng.below(5) {
+            0 | 1 => format!("start {id} interrupt"),
+            2 => format!("start {id} interrupt 1"),
+            3 => format!("start {id} interrupt 2"),
+            _ => format!("start {id} interrupt {}", 3 + rng.below(3)),
+        });
+    }
+    v.push(format!("start {}", pick_id(rng)));
+    v
+}
+
 struct Runner {
     out: Out,
     w: Option<World>,
@@ -1620,8 +1860,8 @@ impl Runner {
                     }
                 };
                 if res != "panic" && res != "bad-op" {
-                    let mutating = !ws.is_empty() && !matches!(ws[0], "bad-header" | "kadput" | "len" | "get" | "contains" | "addrs" | "ls" | "dist" | "far" | "cache" | "pending" | "metrics" | "key");
-                    if mutating {
+                    let mutating = !ws.is_empty() && !matches!(ws[0], "bad-header" | "kadput" | "len" | "get" | "contains" | "addrs" | "ls" | "dist" | "far" | "cache" | "pending" | "metrics" | "key" | "vfile");
+                    if mutating && w.up && res != "down" {
                         let _ = catch_unwind(AssertUnwindSafe(|| {
                             w.check_views();
                             w.check_settled();
@@ -1633,7 +1873,7 @@ impl Runner {
         };
         let op = rec.split_whitespace().next().unwrap_or("").to_string();
         let class = if op == "run" { res.replace(' ', "-") } else { res.split_whitespace().next().unwrap_or("").to_string() };
-        if matches!(op.as_str(), "put" | "run" | "deliver" | "crash" | "get") {
+        if matches!(op.as_str(), "put" | "run" | "deliver" | "crash" | "get" | "start") {
             let class = if class.parse::<u64>().is_ok() { "some".to_string() } else { class };
             self.out.count(&format!("{op}:{class}"));
         } else {
@@ -1709,7 +1949,23 @@ impl Runner {
     }
 }
 
+/// `store --start-child <root> <netid>`: the start-up step of `build_node` on this root, nothing else. The parent
+/// (`start … interrupt`) gives this process an RLIMIT_FSIZE so that the kernel kills it at its first file write.
+fn start_child(argv: &[String]) -> ! {
+    let (Some(root), Some(id)) = (argv.first(), argv.get(1)) else { std::process::exit(2) };
+    let root = PathBuf::from(root);
+    let storage = root.join("record_store");
+    match dhook::check_and_wipe_storage_dir_if_necessary(root, storage, id.clone()) {
+        Ok(()) => std::process::exit(0),
+        Err(_) => std::process::exit(3),
+    }
+}
+
 fn main() {
+    let argv: Vec<String> = std::env::args().collect();
+    if argv.get(1).map(|s| s.as_str()) == Some("--start-child") {
+        start_child(&argv[2..]);
+    }
     let args = &common::parse_args();
     std::panic::set_hook(Box::new(|_| {}));
     let mode = match args.extra.get("mode").map(|s| s.as_str()) {
@@ -1733,6 +1989,7 @@ fn main() {
         channel_backlog_corpus(&mut r);
     }
     if mode == Mode::Crash {
+        interrupted_start_corpus(&mut r);
         header_like_ciphertext_corpus(&mut r);
     }
     if mode == Mode::Cmd {
@@ -1779,7 +2036,22 @@ fn main() {
             }
             if sch == 0 {
                 let mut crashes = 0;
+                // half of the crash histories run on a root whose version file names the node's network id
+                let with_starts = mode == Mode::Crash && rng.chance(1, 2);
+                if with_starts {
+                    r.line(&format!("start {}", rng.pick(&[1u64, 1, 2, 12])));
+                }
                 for i in 0..nops {
+                    if with_starts && crashes < 3 && i > 2 && rng.chance(1, 10) {
+                        for l in start_lines(&mut rng, r.world()) {
+                            r.line(&l);
+                            r.line("vfile");
+                            r.line("ls");
+                        }
+                        r.observe(true);
+                        crashes += 1;
+                        continue;
+                    }
                     if mode == Mode::Crash && crashes < 2 && i > 2 && rng.chance(1, 12) {
                         let l = crash_line(&mut rng, r.world());
                         r.line(&l);
@@ -1800,8 +2072,15 @@ fn main() {
                     r.line(&l);
                 }
                 if mode == Mode::Crash {
-                    let l = crash_line(&mut rng, r.world());
-                    r.line(&l);
+                    if with_starts && rng.chance(1, 2) {
+                        for l in start_lines(&mut rng, r.world()) {
+                            r.line(&l);
+                            r.line("vfile");
+                        }
+                    } else {
+                        let l = crash_line(&mut rng, r.world());
+                        r.line(&l);
+                    }
                     r.observe(true);
                 }
             } else {
@@ -1855,6 +2134,61 @@ fn main() {
     let n = r.n_hist;
     r.out.count_n("histories", n);
     r.out.finish();
+}
+
+/// Corpus (C02): the start-up step outside the store. A node whose version file names its network id stores two
+/// records; it is stopped and started with the same id — interrupted at the first file write (nothing may be written:
+/// the child exits, the version file and both record files are as before), again with a byte limit, then completed:
+/// both records are served. Then a change of network id interrupted inside the version-file write (torn to a prefix
+/// that reads as another id; empty), completed; every observation must agree with the model and nothing torn is served.
+fn interrupted_start_corpus(r: &mut Runner) {
+    r.line("init 4 2 1");
+    r.line("key 1 @");
+    r.line("key 2 @");
+    r.line("vfile");
+    r.line("start 1");
+    let id1 = r.world().next_id;
+    r.line("put 1 3 c");
+    r.line(&format!("run {id1}"));
+    r.line(&format!("deliver {id1}"));
+    let id2 = r.world().next_id;
+    r.line("put 2 7 n7");
+    r.line(&format!("run {id2}"));
+    r.line(&format!("deliver {id2}"));
+    r.line("payment");
+    for l in ["start 1 interrupt", "vfile", "ls", "get 1", "start 1 interrupt 1", "vfile", "ls", "start 1 interrupt 5", "start 1"] {
+        r.line(l);
+    }
+    r.observe(true);
+    r.line("vfile");
+    // a write in flight and a delete pending when the node stops for a same-id restart
+    let id3 = r.world().next_id;
+    r.line("put 1 6 c");
+    r.line("remove 2");
+    r.line("pending");
+    for l in ["start 1 interrupt", "start 1"] {
+        r.line(l);
+    }
+    r.observe(true);
+    let _ = id3;
+    // another network id: interrupted inside the version-file write, then completed
+    for l in ["start 12 interrupt 1", "vfile", "ls", "start 1", "vfile"] {
+        r.line(l);
+    }
+    r.observe(true);
+    let id4 = r.world().next_id;
+    r.line("put 1 3 c");
+    r.line(&format!("run {id4}"));
+    r.line(&format!("deliver {id4}"));
+    for l in ["start 12 interrupt", "vfile", "ls", "start 12 interrupt 1", "vfile", "start 12", "vfile"] {
+        r.line(l);
+    }
+    r.observe(true);
+    for l in ["start 123 interrupt 2", "vfile", "start 12", "vfile", "metrics 1"] {
+        r.line(l);
+    }
+    r.observe(true);
+    r.out.nontrivial_case("interrupted-start-corpus");
 }
 
 /// Corpus (C02/C01): records within a few bytes of `max_value_bytes`, completely written and registered,
